@@ -59,6 +59,9 @@ def case(g, tier, ci):
     sg = SeqGen(g)
     SR = r.choice([1, 10, 100, 1e3, 1e6])
     chans = r.sample([3, 1, 2, "B", "A"], r.randint(1, 3))
+    if ci % 5 == 3:
+        # channel names of which one is the beginning of the other (1 and 10, 'A' and 'AB'): every channel has its own settings
+        chans = list(r.choice([[1, 10], [10, 1], ["A", "AB"], ["AB", "A"], [2, "2b"], [1, 2, 10]]))
     P = r.randint(1, 3)
     # (dyadic values, some with digits below a millivolt: the range is the one that was set, not a rounded one)
     amps = {ch: r.choice([0.5, 1, 2, 3, 4.5, 1 + 2.0 ** -12, 2 + 2.0 ** -10]) for ch in chans}
@@ -101,7 +104,7 @@ def case(g, tier, ci):
             ops.append({"op": "sq.setDelay", "id": "s", "ch": ch, "v": enc(r.choice([2, 3]) / SR)})
         if not boundary and r.random() < 0.15:
             ops.append({"op": "sq.setFilter", "id": "s", "ch": ch, "kind": r.choice(["HP", "LP"]), "order": 1, "orderIsInt": True,
-                        "f_cut": enc(SR * 0.1), "tau": None})
+                        **(r.choice([{"f_cut": enc(SR * 0.1), "tau": None}, {"f_cut": None, "tau": enc(10 / SR)}]))})      # (by cut-off or by time constant)
     bounds = {"twait": [-1, 0, 1, 2], "nrep": [-1, 0, 1, 65535, 65536, 65537], "jump_target": [-2, -1, 0, P, P + 1], "goto": [-1, 0, P, P + 1]}
     for p in range(1, P + 1):
         for fld, vals in bounds.items():
